@@ -177,6 +177,32 @@ def random_case(ctx, idx, rng):
         check_chain_list(ctx, ch2, L, oid_id, exact=exact)
 
 
+def matching_stress_case(ctx, idx, rng):
+    """Chain lists whose bipartite half-chain problem at one cut is adversarial for augmenting-path matchers (path blocks of pairwise different
+    lengths in the order that makes the greedy phase leave one long augmenting path per block; gen.staircase_bipartite), embedded at a random cut of
+    a chain of length 2..5 with optional identity padding. The compiled graph must denote the same sum; construction must not raise."""
+    nu, nv, edges, nsizes, _ = gen.staircase_bipartite(rng, noise=False)
+    L = int(rng.integers(2, 6))
+    cut = int(rng.integers(1, L))            # the edge (u, v) becomes operator a_u on site cut-1 and b_v on site cut
+    wide = rng.random() < 0.5                # wide: each half is a two-site word (same vertex structure, longer half-chains)
+    chains = []
+    for (u, v) in edges:
+        left = [1 + u]
+        right = [1001 + v]
+        if wide and cut >= 2:
+            left = [1 + (u % 3)] + left
+        if wide and cut + 2 <= L:
+            right = right + [1001 + (v % 2)]
+        ist = cut - len(left)
+        chains.append(ptn.OpChain(left + right, [0] * (len(left) + len(right) + 1), float(rng.choice(gen.DYADIC)), ist))
+    if rng.random() < 0.3:
+        chains.append(gen.rand_chain(rng, L, nops=2, charges=False))
+    ctx.case(('matching-stress', f'L{L}', f'cut{cut}', f'sizes{min(nsizes, 6)}', 'wide' if wide else 'narrow'),
+             sample={'L': L, 'cut': cut, 'distinct_block_sizes': nsizes, 'chains': [(c.oids, c.coeff, c.istart) for c in chains[:10]]},
+             info={'L': L, 'chains': [(c.oids, c.qnums, c.coeff, c.istart) for c in chains]})
+    check_chain_list(ctx, chains, L, 0, exact=True)
+
+
 def mpo_case(ctx, idx, rng):
     """from_opgraph on graphs from chain lists and on random consistent graphs: dense meaning, bond charges, node map."""
     d = int(rng.choice([2, 2, 3]))
@@ -274,6 +300,7 @@ SPEC = {
         Workload('ex-L3-3', EX[(3, 3)], quick=0, thorough=_n((3, 3)), exhaustive={'space': 'all multisets of 3 chains, L=3 (1.72e6 lists)'}),
         Workload('ex-L4-2', EX[(4, 2)], quick=0, thorough=_n((4, 2)), exhaustive={'space': 'all multisets of 2 chains, L=4 (242 556 lists)'}),
         Workload('random', random_case, quick=2500, thorough=320000),
+        Workload('matching-stress', matching_stress_case, quick=300, thorough=40000),
         Workload('mpo', mpo_case, quick=500, thorough=75000),
     ],
     'shards': {'quick': 4, 'thorough': 16},
